@@ -249,8 +249,11 @@ int fnmatch(const char *pat, const char *str, int flags)
 	if (!wpat)
 		return (errno == EILSEQ) ? FNM_NOMATCH : -1;
 	wstr = mbstr_decode(str, slen, NULL, sbuf, sizeof(sbuf) / sizeof(wchar_t), true);
-	if (!wstr)
+	if (!wstr) {
+		if (wpat != pbuf)
+			free(wpat);
 		return -1;
+	}
 
 	/* run actual fnmatch */
 	res = wfnmatch(wpat, wstr, flags);
